@@ -14,6 +14,32 @@ use std::marker::PhantomData;
 use std::ptr::NonNull;
 
 pub const NONE: usize = usize::MAX;
+/// Set by harnesses in which every coroutine object is an NP actor.  Control flow that matters
+/// for the size of the formula must not depend on fields read through data-dependent pointers
+/// (CBMC cannot constant-fold them): a static assigned once can be folded.
+pub static mut ACTORS_ONLY: bool = false;
+/// Set when exactly one coroutine actor exists: its number.  `resume()`/`set_para()` then never
+/// read the cell through the (data-dependent, hence imprecise for CBMC) coroutine pointer.
+pub static mut SOLE: usize = NONE;
+/// per-actor suspension state (statics, not heap fields: see above)
+pub static mut SUSPENDED: [bool; 4] = [false; 4];
+pub static mut RESUMED: [bool; 4] = [false; 4];
+pub static mut RUNNING: [bool; 4] = [false; 4];
+pub static mut RESUME_CNT: [usize; 4] = [0; 4];
+/// the value an actor coroutine "yields" when it is resumed: a subscriber that does nothing
+/// (the actor's continuation runs on the harness stack and performs its own next subscribe)
+/// the resume parameter is reduced to what the runtime reads from it (for io::Error: its kind),
+/// so that no boxed `dyn Error` travels through the model (its drop glue is a virtual call that
+/// CBMC fans out over every implementation)
+pub trait ModelPara: Sized {
+    fn squash(self) -> Self;
+    /// park the parameter of actor coroutine `actor` outside the heap cell (statics indexed by
+    /// the actor number keep the value foldable for CBMC)
+    fn stash(self, actor: usize);
+}
+pub trait ModelYield {
+    fn noop() -> Self;
+}
 
 pub struct FakeImpl<A, T> {
     pub body: Option<Box<dyn FnOnce() -> T>>,
@@ -88,8 +114,22 @@ impl<'a, A, T> Generator<'a, A, T> {
         r
     }
     pub fn prefetch(&self) {}
-    pub fn set_para(&mut self, para: A) {
-        let old = self.imp().para.replace(para);
+    pub fn set_para(&mut self, para: A)
+    where
+        A: ModelPara,
+    {
+        unsafe {
+            if SOLE != NONE {
+                para.stash(SOLE);
+                return;
+            }
+        }
+        let i = self.imp();
+        if unsafe { ACTORS_ONLY } || i.actor != NONE {
+            para.stash(i.actor);
+            return;
+        }
+        let old = i.para.replace(para.squash());
         std::mem::forget(old);
     }
     pub fn set_local_data(&mut self, d: *mut u8) {
@@ -107,21 +147,24 @@ impl<'a, A, T> Generator<'a, A, T> {
     pub fn stack_usage(&self) -> (usize, usize) {
         (crate::config::config().get_stack_size(), 16)
     }
+}
+
+impl<'a, A, T: ModelYield> Generator<'a, A, T> {
     pub fn resume(&mut self) -> Option<T> {
+        unsafe {
+            if SOLE != NONE || ACTORS_ONLY || self.imp().actor != NONE {
+                let a = if SOLE != NONE { SOLE } else { self.imp().actor };
+                assert!(!RUNNING[a], "coroutine resumed while it is running on another thread");
+                assert!(SUSPENDED[a], "coroutine resumed although it is not suspended");
+                assert!(!RESUMED[a], "coroutine resumed twice for one suspension");
+                RESUMED[a] = true;
+                RESUME_CNT[a] += 1;
+                return Some(T::noop());
+            }
+        }
         let i = self.imp();
         assert!(!i.running, "coroutine resumed while it is running on another thread");
         i.resumes += 1;
-        if i.actor != NONE {
-            if !i.suspended || i.resumed {
-                i.double_resume = true;
-            }
-            assert!(i.suspended, "coroutine resumed although it is not suspended");
-            assert!(!i.resumed, "coroutine resumed twice for one suspension");
-            i.resumed = true;
-            let n = i.next.take();
-            assert!(n.is_some());
-            return n;
-        }
         match i.body.take() {
             Some(b) => {
                 if i.panic.is_some() {
